@@ -448,6 +448,19 @@ class ParserShapes:
             return None if a is None else (a[1], a[0])
         if k == 'paren':
             return self.la_cond(e['e'], st)
+        if k == 'call' and not e.get('args') and e.get('ck') != 'operator' and e.get('callee_in_repo') and not self.is_lookahead_call(e):
+            # a parameterless predicate of the parse state (at_eof()): its single return expression is the test
+            facts = getattr(self, 'facts', None)
+            g = facts.fn(e.get('callee'), optional=True) if facts is not None and e.get('callee') else None
+            if g is not None and g.get('body') is not None and getattr(self, '_la_depth', 0) < 3:
+                rets = [x for x in walk_stmts(g['body']) if x['k'] == 'return' and x.get('e') is not None]
+                others = [x for x in walk_stmts(g['body']) if x['k'] not in ('return', 'block')]
+                if len(rets) == 1 and not others:
+                    self._la_depth = getattr(self, '_la_depth', 0) + 1
+                    try:
+                        return self.la_cond(rets[0]['e'], None)
+                    finally:
+                        self._la_depth -= 1
         if k == 'call' and e.get('obj') is None and e.get('ck') != 'operator' and len(e.get('args', [])) == 1 and is_la(strip_casts(e['args'][0])):
             # an in-repo predicate over the look-ahead (e.g. "is this token in FIRST(P)?"): evaluated for every token kind
             facts = getattr(self, 'facts', None)
